@@ -707,6 +707,16 @@ class ModRef:
         self.name = name
 
 
+class PyFunc:
+    """a model function supplied by the checker (for outside objects such as a spatial tree): fn(args, kwargs)"""
+
+    def __init__(self, fn, name="model"):
+        self.fn, self.name = fn, name
+
+    def __repr__(self):
+        return "<%s>" % self.name
+
+
 class Builtin:
     def __init__(self, name):
         self.name = name
@@ -770,7 +780,7 @@ class Ev:
                 if r is not None:
                     return r
             raise Undecided("truth of the uninterpreted result %r%s" % (v, " at line %s" % node.lineno if node is not None else ""))
-        if isinstance(v, (Obj, MatchV, EnumMember, Ctor, ClassRef, FuncV, PatternV)):
+        if isinstance(v, (Obj, MatchV, EnumMember, Ctor, ClassRef, FuncV, PatternV, PyFunc)):
             return True
         raise Undecided("truth of %r is not decidable%s" % (v, " at line %s" % node.lineno if node is not None else ""))
 
@@ -1496,6 +1506,8 @@ class Ev:
                     return Ctor(c.name, dict(kwargs, **{"arg%d" % i: a for i, a in enumerate(args)}))
                 owner, init = got
                 return Ctor(c.name, self.bind_args(init, args, kwargs, drop_first=True, mod=owner.mod))
+            if isinstance(target, PyFunc):
+                return target.fn(args, kwargs)
             if isinstance(target, Builtin):
                 return self.builtin(target.name, args, kwargs, e)
             if isinstance(target, ModRef):
@@ -1671,6 +1683,10 @@ class Ev:
     def modcall(self, name, args, kwargs, e):
         if name.startswith("warnings.") or name.startswith("logging.") or name.startswith("logger."):
             return NONE
+        if name in ("collections.defaultdict", "defaultdict"):
+            d = DictV()
+            d.default = args[0] if args else None
+            return d
         if name in ("itertools.chain", "chain"):
             return ListV([x for a in args for x in self.iterate(a, e)])
         if name in ("itertools.chain.from_iterable", "chain.from_iterable"):
@@ -1966,6 +1982,9 @@ class Ev:
         if isinstance(v, DictV):
             kk = self.key_of(k)
             if kk not in v.d:
+                if getattr(v, "default", None) is not None:
+                    v.d[kk] = self.apply(v.default, [], {}, node, mod)
+                    return v.d[kk]
                 raise _Raise(node, "KeyError %r" % (kk,), "KeyError")
             return v.d[kk]
         if isinstance(v, MatchV):
